@@ -59,6 +59,11 @@ def grid_basic(nmax):
     for n in range(1, nmax + 1):
         for c in ("SingleMemory", "SingleDiskCopy", "SingleDiskMove", "None"):
             out.append({"cls": c, "n": n})
+        if n in (1, 2, 5, 9):
+            # bool-like flags that are not the bool singletons
+            for c in ("SingleDiskCopy", "SingleDiskMove"):
+                for f in ("np", "int"):
+                    out.append({"cls": c, "n": n, "flag": f})
     return out
 
 
